@@ -13,6 +13,15 @@ from vlib import x86gen as G
 
 # script flags (keep in sync with drv_equiv.cpp)
 F_VALIDATE_ASM, F_VALIDATE_INTERMEDIATE, F_LOGGER, F_OPT_SIZE, F_OPT_ALIGN, F_PREDICTED, F_EDIT_COMPILER, F_BASE = 1, 2, 4, 8, 16, 32, 64, 128
+F_CONTINUE = 256        # the script is additionally replayed in "go on after a refused call" mode
+
+# every pick of the dimensions added later (branch hints / forced REX bits in the pools, labels created outside the emitter, annotated
+# jumps, global constant pool, hand-made nodes, no-op removals, continue-after-error) comes from side streams derived with these constants
+SIDE_POOL, SIDE_SCRIPT = 0x7A6B5C4D3E2F1A0B, 0x1D2C3B4A59687766
+
+
+def side_stream(rng, const):
+    return type(rng)(rng.s ^ const)
 
 REL8_ONLY = {"jecxz", "jrcxz", "jcxz", "loop", "loope", "loopne"}
 
@@ -75,7 +84,9 @@ class Model:
 
     def remove(self, k):
         if k not in self.nodes:
-            raise Invalid("remove of inactive node")
+            if k in self.created:
+                return          # remove_node() of a node that is not part of the list: the list stays as it is
+            raise Invalid("remove of unknown node")
         if len(self.nodes) == 1 and not self.allow_empty:
             raise Invalid("would empty the list")
         i = self.nodes.index(k)
@@ -85,6 +96,8 @@ class Model:
             self.cursor = prev
 
     def remove_range(self, a, b):
+        if a not in self.nodes and b not in self.nodes and a in self.created and b in self.created:
+            return              # remove_nodes() of nodes that are not part of the list: the list stays as it is
         if a not in self.nodes or b not in self.nodes:
             raise Invalid("range end inactive")
         i, j = self.nodes.index(a), self.nodes.index(b)
@@ -276,6 +289,7 @@ def edits_hash(script):
 def x86_pool_candidates(rng, forms, mode, budget):
     """-> list of dict(tail=<template with {} label slots>, nlab, short, probe=<drv_emit case line>)"""
     gen = G.Gen(rng, False)
+    side = side_stream(rng, SIDE_POOL)
     out = []
     arch = "x64" if mode == 64 else "x86"
     for f in forms:
@@ -303,10 +317,23 @@ def x86_pool_candidates(rng, forms, mode, budget):
                     else:
                         toks.append(G.op_token(op))
                 ex = "-" if not c["extra"] else "%s:%d" % c["extra"]
-                tail = "%s %x %s %d %s" % (c["name"], c["opts"], ex, len(toks), " ".join(toks))
-                probe = "%d %s %s" % (len(out), arch, tail.replace("{}", "0"))
-                out.append(dict(tail=tail.rstrip(), nlab=nlab, probe=probe, nops=len(toks), opts=c["opts"], extra=bool(c["extra"]),
-                                short=bool(c["opts"] & G.OPT_SHORT) or c["name"] in REL8_ONLY, name=c["name"]))
+                # option variants of the later dimensions (side stream): branch hints on every conditional jump, forced REX.B/X/R/W bits
+                optsets = [(c["opts"], None)]
+                is_rel = any(op[0] == "L" for op in c["ops"])
+                if is_rel and c["name"][0] == "j" and c["name"] != "jmp" and c["name"] not in REL8_ONLY:
+                    optsets += [(c["opts"] | G.OPT_TAKEN, "hint"), (c["opts"] | G.OPT_NOTTAKEN, "hint")]
+                elif mode == 64 and not is_rel and c["variant"] in ("base", "base-mem", "random") and side.chance(1, 6):
+                    optsets.append((c["opts"] | (side.range(1, 15) << 24), "rexbits"))
+                # a memory operand that can stand for a constant of the Compiler's global constant pool (label base, plain shape)
+                gcmem = None
+                for i, op in enumerate(c["ops"]):
+                    if toks[i].startswith("M:") and ":label:{}" in toks[i] and nlab == 1 and op[1]["size"] in (1, 2, 4, 8, 16, 32, 64) and not op[1]["bcst"]:
+                        gcmem = (i, op[1]["size"])
+                for opts, dim in optsets:
+                    tail = "%s %x %s %d %s" % (c["name"], opts, ex, len(toks), " ".join(toks))
+                    probe = "%d %s %s" % (len(out), arch, tail.replace("{}", "0"))
+                    out.append(dict(tail=tail.rstrip(), nlab=nlab, probe=probe, nops=len(toks), opts=opts, extra=bool(c["extra"]),
+                                    short=bool(opts & G.OPT_SHORT) or c["name"] in REL8_ONLY, name=c["name"], dim=dim, gcmem=gcmem))
     return out
 
 
@@ -335,8 +362,12 @@ def a64_pool_candidates(rng, cases):
                 probe_toks.append(t)
         tail = "%s 0 - %d %s" % (name, nops, " ".join(new))
         probe = "%d %s %d %s" % (len(out), name, nops, " ".join(probe_toks))
+        gcmem = None
+        ml = [i for i, t in enumerate(new) if t.startswith("ML:{}")]
+        if nlab == 1 and ml:
+            gcmem = (ml[0], 0)
         out.append(dict(tail=tail.rstrip(), nlab=nlab, probe=probe.rstrip(), nops=nops, opts=0, extra=False, short=False, name=name,
-                        status=c["status"]))
+                        status=c["status"], dim=None, gcmem=gcmem))
     return out
 
 
@@ -348,6 +379,11 @@ class Pool:
         self.wide = [c for c in self.plain if c["nops"] > 3]
         self.wide6 = [c for c in self.plain if c["nops"] > 4]
         self.fancy = [c for c in self.plain if c["extra"] or c["opts"]]
+        # later dimensions
+        self.hinted = [c for c in self.jump if c.get("dim") == "hint"]
+        self.hinted_long = [c for c in self.hinted if not c["short"]]
+        self.jann = [c for c in self.plain + self.jump if c["nops"] == 1 and c["name"] in ("jmp", "br", "b") and not c["short"]]
+        self.gcmem = [c for c in self.jump if c.get("gcmem")]
 
 
 # ----------------------------------------------------------------------------------------------------------------------
@@ -363,6 +399,7 @@ def hexbytes(rng, n):
 class ScriptGen:
     def __init__(self, rng, pools):
         self.rng = rng
+        self.side = side_stream(rng, SIDE_SCRIPT)
         self.pools = pools      # arch -> Pool
 
     # -- single calls ----------------------------------------------------------
@@ -381,7 +418,15 @@ class ScriptGen:
         if not cn and rng.chance(1, 10):
             name = "g%d_%s" % (k, st["sid"].replace("-", "_"))
             ltype = 2
-        out.append(self._new(st, "NL", "%d %s %d %d" % (k, name, ltype, 1 if cn else 0), k=k, cn=cn))
+        # who creates the label: 0 = the emitter under test, 1 = CodeHolder::new_label_id() / new_named_label_id(), 2 = another (idle)
+        # emitter attached to the same CodeHolder. The Builder then meets a label id it has no LabelNode for.
+        # 3 = BaseBuilder::new_label_node() (a LabelNode made by hand; the label comes with it) - plain new_label() for assemblers
+        creator = 0
+        if not cn and self.side.chance(1, 4):
+            creator = self.side.choice([1, 1, 1, 1, 1, 2, 2, 2, 3, 3])
+            if creator == 3 and name != "-":
+                creator = 1
+        out.append(self._new(st, "NL", "%d %s %d %d %d" % (k, name, ltype, int(cn), creator), k=k, cn=cn, creator=creator))
         st["labels"].append(k)
         if cn:
             st["cn"].add(k)
@@ -406,7 +451,54 @@ class ScriptGen:
                 k = labels.pop(0) if labels else self._ref_label(st, out)
                 uses.append(k)
             tail = tail.format(*uses)
-        out.append(self._new(st, "I", "%s %s" % (cm, tail), uses=uses, wide=entry["nops"] > 3, nops=entry["nops"], fancy=bool(entry["extra"] or entry["opts"])))
+        out.append(self._new(st, "I", "%s %s" % (cm, tail), uses=uses, wide=entry["nops"] > 3, nops=entry["nops"], fancy=bool(entry["extra"] or entry["opts"]),
+                             dim=entry.get("dim")))
+
+    def _annotated_jump(self, st, out, entry, extra=None):
+        """JA: Compiler::emit_annotated_jump(inst, target, annotation) - for the other emitters an ordinary one-operand instruction"""
+        side = self.side
+        cm = "ic%d" % st["next_cid"] if side.chance(1, 3) else "-"
+        uses = []
+        tail = entry["tail"]
+        if entry["nlab"]:
+            uses = [self._ref_label(st, out) for _ in range(entry["nlab"])]
+            tail = tail.format(*uses)
+        if extra:
+            parts = tail.split(" ")
+            parts[2] = extra
+            tail = " ".join(parts)
+        ann = []
+        if st["labels"]:
+            for _ in range(side.below(4)):
+                ann.append(side.choice(st["labels"]))
+        out.append(self._new(st, "JA", "%s %s %s" % (",".join(str(k) for k in ann) if ann else "-", cm, tail), uses=uses + ann, nops=1,
+                             fancy=bool(entry["opts"] or extra),
+                             target="label" if " L:{}" in entry["tail"] else "label_mem" if entry["nlab"] else "mem" if entry["tail"].split(" ")[-1][0] == "M" else "reg"))
+
+    def _global_const(self, st, out, entry):
+        """GC: Compiler::_new_const(kGlobal, data) + an instruction that reads the constant; for the other emitters the same instruction
+        with a [label + offset] operand and the pool embedded after the last node"""
+        side = self.side
+        k = st.get("gc_label")
+        if k is None:
+            k = self._new_label(st, out, cn=2)
+            st["gc_label"] = k
+        idx, size = entry["gcmem"]
+        if not size:
+            size = side.choice([4, 8, 8, 16])
+        if st["gc_consts"] and side.chance(1, 4):
+            data = side.choice(st["gc_consts"])      # an earlier constant again (may be shared, may be a part of a wider one)
+            if len(data) // 2 > size:
+                data = data[:size * 2]
+            elif len(data) // 2 < size:
+                data = (data * 64)[:size * 2]
+        else:
+            data = hexbytes(side, size)
+        st["gc_consts"].append(data)
+        cm = "ic%d" % st["next_cid"] if side.chance(1, 4) else "-"
+        parts = entry["tail"].split(" ")
+        parts[4 + idx] = "GC"
+        out.append(self._new(st, "GC", "%d %s %s %s" % (k, data, cm, " ".join(parts)), uses=[k], k=k, nops=entry["nops"], size=size))
 
     def _pool_desc(self, a4=False):
         rng = self.rng
@@ -424,7 +516,16 @@ class ScriptGen:
         """appends one call (plus label creations it needs) to `out`"""
         rng = self.rng
         a4 = st.get("a4", False)     # AArch64: keep everything a multiple of 4 bytes so that code stays aligned
-        if kind == "I":
+        if kind == "J" and pool.jann and self.side.chance(1, 6) and st["near"] is None:
+            self._annotated_jump(st, out, self.side.choice(pool.jann))
+            kind = "I"
+        elif kind == "J" and pool.hinted_long and (st["flags"] & F_PREDICTED) and st["near"] is None and self.side.chance(1, 3):
+            # EncodingOptions::kPredictedJumps is on: make sure conditional jumps that carry kTaken / kNotTaken are present
+            self._inst(st, out, self.side.choice(pool.hinted_long))
+            kind = "I"
+        elif kind == "I" and pool.gcmem and st["gc_ok"] and st["near"] is None and self.side.chance(1, 10):
+            self._global_const(st, out, self.side.choice(pool.gcmem))
+        elif kind == "I":
             src = pool.plain
             r = rng.below(10)
             if r == 0 and pool.wide:
@@ -512,7 +613,11 @@ class ScriptGen:
         rng = self.rng
         out = []
         r = rng.below(10)
-        if r < 6 and pool.invalid:
+        jann0 = [e for e in pool.jann if not e["nlab"]]
+        if jann0 and self.side.chance(1, 5):
+            # an annotated jump that carries an extra register no jump takes (the JumpNode has to keep it for the error to appear)
+            self._annotated_jump(st, out, self.side.choice(jann0), extra="k:%d" % self.side.range(1, 7))
+        elif r < 6 and pool.invalid:
             self._inst(st, out, rng.choice(pool.invalid))
         elif r == 6:
             out.append(self._new(st, "AL", "%d %d" % ((3, 8) if rng.chance(1, 3) else (rng.below(3), rng.choice([3, 5, 48])))))
@@ -562,7 +667,7 @@ class ScriptGen:
         for i in range(nsec):
             secs.append((SEC_NAMES[i], rng.choice([0, 1, 2, 3]), rng.choice([1, 4, 16, 64]), rng.choice([0, 0, 1, -1, 5])))
         st = dict(sid=sid, next_cid=1, phase=1, nlabels=0, labels=[], cn=set(), bound=set(), nsec=nsec, cursec=0, recent=None, near=None,
-                  a4=(arch == "a64" and rng.chance(9, 10)))
+                  a4=(arch == "a64" and rng.chance(9, 10)), flags=flags, gc_label=None, gc_consts=[], gc_ok=self.side.chance(1, 4))
         calls = []
         while len([c for c in calls if c["kind"] != "NL"]) < n:
             if st["near"] is not None:
@@ -589,7 +694,11 @@ class ScriptGen:
                 st["bound"].add(k)
                 calls.append(self._new(st, "B", "%d" % k, k=k, uses=[k]))
         has_invalid = False
-        if rng.chance(1, 20):
+        want_invalid = rng.chance(1, 20)
+        go_on = False
+        if not want_invalid and self.side.chance(1, 25):
+            want_invalid = go_on = True
+        if want_invalid:
             inv = self.invalid_call(st, pool, arch)
             if inv:
                 # after every label it may reference has been created
@@ -597,8 +706,14 @@ class ScriptGen:
                 for k in inv[-1].get("uses", ()):
                     lo = max([lo] + [i + 1 for i, c in enumerate(calls) if c["kind"] == "NL" and c["k"] == k])
                 pos = rng.range(lo, len(calls))
+                if 0 < pos < len(calls) and calls[pos]["kind"] == "GC" and calls[pos - 1]["kind"] == "NL":
+                    pos -= 1    # the Compiler creates the global pool's label inside the first GC call
+                    if pos < lo:
+                        pos = len(calls)
                 calls[pos:pos] = inv
                 has_invalid = True
+                if go_on or self.side.chance(1, 2):
+                    flags |= F_CONTINUE
         script = dict(sid=sid, arch=arch, flags=flags, secs=secs, calls=calls, edits=[], calls2=[], has_invalid=has_invalid)
         if len(calls) >= 2 and rng.chance(9, 20):
             self.gen_edits(script, st, pool, arch)
@@ -625,6 +740,7 @@ class ScriptGen:
         nsec = st["nsec"]
         sec_mode = nsec >= 1 and rng.chance(3, 5 if nsec >= 2 else 12)
         sec_stats = {}
+        xstats = {}
         force = []          # kinds of the next emits: "SE:<n>" / "SE:last" / "SE:other" / "SE:any" / a call kind
         if nsec:
             w = 25 if sec_mode else 2
@@ -666,8 +782,17 @@ class ScriptGen:
                 return rng.choice(c) if c else None
 
             new = []
+            xnew = []
             try:
-                if op == "rm":
+                if op in ("rm", "rr") and inactive and self.side.chance(1, 12):
+                    # removal of nodes that are not part of the list: nothing may change (followed by an emit that shows the cursor)
+                    if op == "rm" or self.side.chance(1, 3):
+                        new.append(("rm", self.side.choice(inactive), ""))
+                    else:
+                        new.append(("rr", self.side.choice(inactive), self.side.choice(inactive)))
+                    xnew.append("removal_of_inactive_node_by_" + ("remove_node" if new[-1][0] == "rm" else "remove_nodes"))
+                    force_emit = 1
+                elif op == "rm":
                     k = pick_active(rng.chance(1, 8))
                     if k is None:
                         continue
@@ -779,7 +904,10 @@ class ScriptGen:
                     self.gen_call(st, tmp, kind, pool, arch)
                     for c in tmp:
                         calls2[c["cid"]] = c
-                        new.append(("emit", str(c["cid"]), ""))
+                        # 1 in 6 of the calls that make exactly one node: the node is made by hand (new_inst_node + set_op + ..., new_align_node,
+                        # new_embed_data_node, new_comment_node) and linked with add_node() instead of going through the emitter call
+                        by_hand = c["kind"] in ("I", "AL", "EM", "ED", "CM") and self.side.chance(1, 6)
+                        new.append(("ni" if by_hand else "emit", str(c["cid"]), ""))
                 # what the section-related edits of this step are (coverage accounting, from the model state before the step)
                 step_stats = []
                 for e in new:
@@ -788,7 +916,7 @@ class ScriptGen:
                         step_stats.append("section()_of_" + ("active" if k in m.nodes else "removed" if k in m.created else "never_added") + "_section")
                     elif e[0] == "rm" and e[1][0] == "S":
                         step_stats.append("section_node_removed_alone")
-                    elif e[0] == "rr":
+                    elif e[0] == "rr" and e[1] in m.nodes and e[2] in m.nodes:
                         i, j = m.nodes.index(e[1]), m.nodes.index(e[2])
                         if any(k[0] == "S" for k in m.nodes[i:j + 1]):
                             step_stats.append("section_node_removed_in_range")
@@ -805,15 +933,23 @@ class ScriptGen:
                     steps += 1
                 for x in step_stats:
                     sec_stats[x] = sec_stats.get(x, 0) + 1
+                for e in new:
+                    if e[0] == "ni":
+                        xnew.append("node_made_by_hand_" + calls2[int(e[1])]["kind"])
+                for x in xnew:
+                    xstats[x] = xstats.get(x, 0) + 1
             except Invalid:
                 st.pop("force_sec", None)
                 for e in new:
-                    if e[0] == "emit":
-                        calls2.pop(int(e[1]), None)
+                    if e[0] in ("emit", "ni"):
+                        c = calls2.pop(int(e[1]), None)
+                        if c and c["kind"] == "NL" and c["k"] == st.get("gc_label"):
+                            st["gc_label"] = None       # the step that would have created the global pool's label was dropped
                 continue
-        used = set(int(e[1]) for e in edits if e[0] == "emit")
+        used = set(int(e[1]) for e in edits if e[0] in ("emit", "ni"))
         script["edits"] = edits
         script["sec_stats"] = sec_stats
+        script["xstats"] = xstats
         script["sec_mode"] = sec_mode
         script["calls2"] = [calls2[c] for c in sorted(calls2) if c in used]
 
